@@ -270,6 +270,18 @@ func TestC06(t *testing.T) {
 		if cross {
 			ev.NonTrivial(id, ev.Hash(fmt.Sprint(src)))
 		}
+		// annotated items reached although their package is not imported (through a middle package's API)
+		unimported := false
+		p.Walk(func(si proggen.SiteInfo) {
+			for _, evn := range si.Site.Events() {
+				if evn.Type != nil && evn.Type.Immutable && evn.Cat == "IMM" && proggen.Visible(evn.Type.Pkg, si.Ctx) == "no" {
+					unimported = true
+				}
+			}
+		})
+		if unimported {
+			ev.Class(id, "mutation of an @immutable type whose package the user does not import (reached through a middle package)")
+		}
 		if fat > 0 {
 			ev.Class(id, "program with long / unusual annotation values")
 		}
